@@ -102,6 +102,8 @@ static std::atomic<int> g_live(0);   // context-specific objects alive = request
 static void flag(char const *f) { std::lock_guard<std::mutex> g(g_mx); g_log.flags.push_back(f); }
 
 struct life { life() { g_live++; } ~life() { g_live--; } };
+static std::string g_hand;
+static std::vector<std::string> g_datas;   // contents of the uploaded files of the current request (to check files made permanent)
 static std::vector<booster::shared_ptr<cppcms::http::file> > g_kept;   // references the application keeps beyond the request
 static std::string read_whole(std::string const &path)
 {
@@ -122,7 +124,23 @@ static std::string slurp(cppcms::http::file &f)
 	return res;
 }
 
+// what a reading filter does with the stream of a part; nothing is rewound afterwards
+static std::string rd(cppcms::http::file &f, char how)
+{
+	std::istream &in = f.data(); std::string got; int c;
+	switch (how) {
+	case 'a': while ((c = in.rdbuf()->sbumpc()) != EOF) got += char(c); break;                       // all, buffer level
+	case 'p': { long long n = f.size() / 2; while (n-- > 0 && (c = in.rdbuf()->sbumpc()) != EOF) got += char(c); } break;
+	case 'e': in.seekg(0, std::ios_base::end); break;
+	case 'm': in.seekg(f.size() / 2); break;
+	case 's': { char buf[256]; while (in.read(buf, sizeof(buf)) || in.gcount() > 0) got.append(buf, in.gcount()); } break;   // stream level: leaves eofbit|failbit
+	default: break;
+	}
+	return got;
+}
+
 struct mp_filter : public cppcms::http::multipart_filter {
+	std::string rmode;   // mode R<new><progress><ready>: the filter READS in its callbacks and leaves the stream as it is
 	long long last_size; std::string last_partial; bool open; int abort_at, seen;
 	mp_filter(int ab = 0) : last_size(0), open(false), abort_at(ab), seen(0) {}
 	virtual void on_new_file(cppcms::http::file &f)
@@ -131,11 +149,13 @@ struct mp_filter : public cppcms::http::multipart_filter {
 		open = true; last_size = 0; last_partial.clear();
 		if (f.size() != 0) flag("NEW-FILE-NOT-EMPTY");
 		{ std::lock_guard<std::mutex> g(g_mx); g_log.n_new++; }
+		if (!rmode.empty()) { rd(f, rmode[0]); return; }
 		if (++seen == abort_at) throw cppcms::http::abort_upload(403);   // mode a<k>: the filter refuses the k-th entry
 	}
 	virtual void on_upload_progress(cppcms::http::file &f)
 	{
 		if (!open) flag("PROGRESS-WITHOUT-NEW");
+		if (!rmode.empty()) { rd(f, rmode[1]); return; }
 		long long sz = f.size();
 		if (sz < last_size) flag("PROGRESS-SHRINKS");
 		std::string d = slurp(f);
@@ -147,6 +167,12 @@ struct mp_filter : public cppcms::http::multipart_filter {
 	{
 		if (!open) flag("READY-WITHOUT-NEW");
 		open = false;
+		if (!rmode.empty()) {
+			std::string seen = rd(f, rmode[2]);
+			std::lock_guard<std::mutex> g(g_mx);
+			g_log.readyd.push_back(hex(f.name()) + "," + hex(f.filename()) + "," + hex(f.mime()) + "," + ((rmode[2] == 'a' || rmode[2] == 's') ? hex(seen) : std::string("*")));
+			return;
+		}
 		std::string d = slurp(f);
 		if ((long long)d.size() != f.size()) flag("READY-SIZE-VS-DATA");
 		if (d.compare(0, last_partial.size(), last_partial) != 0) flag("READY-NOT-EXTENSION");
@@ -186,6 +212,7 @@ public:
 			std::string mode = rq.get("mode");
 			if (mode == "m") rq.reset_content_filter(new mp_filter());
 			else if (mode[0] == 'a') rq.reset_content_filter(new mp_filter(atoi(mode.c_str() + 1)));
+			else if (mode[0] == 'R' && mode.size() == 4) { mp_filter *f = new mp_filter(); f->rmode = mode.substr(1); rq.reset_content_filter(f); }
 			else if (mode == "r") rq.reset_content_filter(new raw_filter());
 			return;
 		}
@@ -218,13 +245,31 @@ public:
 			cppcms::http::request::files_type f = rq.files();
 			std::ostringstream ss; ss << " F " << f.size();
 			std::vector<std::string> datas;
+			int handed_cut = 0; bool rmode = rq.get("mode").size() == 4 && rq.get("mode")[0] == 'R';
+			// action P<k>: make file k permanent WITHOUT ever reading it (reading flushes the put area): its content is taken from the
+			// file that stays in the upload directory after the request is gone
+			int skip = -1;
+			{
+				std::string a0 = rq.get("act"); size_t pp = a0.find('P');
+				if (pp != std::string::npos) { size_t k = strtoul(a0.c_str() + pp + 1, 0, 10); if (k < f.size() && f[k]->size() > atoll(rq.get("mem").c_str())) skip = int(k); }
+			}
 			for (size_t i = 0; i < f.size(); i++) {
+				if (int(i) == skip) {
+					datas.push_back("@PERM@");
+					ss << " " << hex(f[i]->name()) << "," << hex(f[i]->filename()) << "," << hex(f[i]->mime()) << ",@PERM@";
+					continue;
+				}
+				std::string asis;
+				if (rmode) { int c; while ((c = f[i]->data().rdbuf()->sbumpc()) != EOF) asis += char(c); }   // the stream as it is handed over
 				std::string d = slurp(*f[i]);
+				if (rmode && asis != d) handed_cut++;
 				if ((long long)d.size() != f[i]->size()) flag("FILE-SIZE-VS-DATA");
 				datas.push_back(d);
 				ss << " " << hex(f[i]->name()) << "," << hex(f[i]->filename()) << "," << hex(f[i]->mime()) << "," << hex(d);
 			}
 			b += ss.str();
+			if (rmode) { std::ostringstream hh; hh << " hand=" << handed_cut; g_hand = hh.str(); } else g_hand.clear();
+			{ std::lock_guard<std::mutex> g(g_mx); g_datas = datas; }
 			{ std::lock_guard<std::mutex> g(g_mx); g_log.tmp_main = count_dir(g_updir); g_log.fd_main = count_fds(g_updir); }
 			// what the application does with the uploaded files: act=<c|s|p|k><index>.<...>
 			std::string acts = rq.get("act");
@@ -249,7 +294,7 @@ public:
 							::unlink(tn.str().c_str());
 						}
 						break;
-					case 'p': f[k]->make_permanent(); break;
+					case 'p': case 'P': f[k]->make_permanent(); break;
 					case 'k': g_kept.push_back(f[k]); break;
 					}
 				}
@@ -418,6 +463,7 @@ int main()
 			// the request object (parser, files) goes away right after the context-specific data: give it a moment
 			int left = count_dir(g_updir) - dir_base;
 			int fd_left = count_fds(g_updir) - fd_base, left3 = 0, fd3 = 0;
+			std::string perm_hex = "NO-FILE";
 			static bool leaked_before = false;    // after a first leak the check fails anyway: do not wait 5 s in every later case
 			if (!rf) {
 				for (int i = 0; i < (leaked_before ? 2000 : 50000) && (left > 0 || fd_left > 0); i++) {
@@ -438,6 +484,21 @@ int main()
 				left = count_dir(g_updir) - dir_base; fd_left = count_fds(g_updir) - fd_base;
 			}
 			if (left > 0 || fd_left > 0) leaked_before = true;
+			if (rf && count_dir(g_updir) > 0) {
+				// files the application made permanent stay: each must hold the complete content of one uploaded file
+				std::vector<std::string> datas; { std::lock_guard<std::mutex> g(g_mx); datas = g_datas; }
+				bool unread = std::find(datas.begin(), datas.end(), std::string("@PERM@")) != datas.end();
+				int nleft = 0;
+				DIR *dd = opendir(g_updir.c_str());
+				while (struct dirent *e = readdir(dd)) {
+					if (e->d_name[0] == '.') continue;
+					std::string c = read_whole(g_updir + "/" + e->d_name);
+					nleft++;
+					if (unread) perm_hex = (nleft == 1) ? hex(c) : std::string("SEVERAL-FILES");
+					else if (std::find(datas.begin(), datas.end(), c) == datas.end()) flag("PERMANENT-FILE-CONTENT-DIFFERS");
+				}
+				closedir(dd);
+			}
 			if (count_dir(g_updir) > 0) { std::string cmd = "rm -f '" + g_updir + "'/*"; if (system(cmd.c_str())) {} }
 			std::string status = "none";
 			if (!resp.empty()) {
@@ -456,12 +517,14 @@ int main()
 				continue;
 			}
 			out << (rf ? "rf " : "rq ") << status << " ";
+			{ size_t pp = L.dump.find("@PERM@"); if (pp != std::string::npos) L.dump.replace(pp, 6, perm_hex); }
 			if (status == "200") out << (L.dump.empty() ? std::string("NO-DUMP") : L.dump); else out << "P 0 F 0";
 			out << " L new=" << L.n_new << " ready=" << L.readyd.size();
 			for (size_t i = 0; i < L.readyd.size(); i++) out << (i ? ";" : ":") << L.readyd[i];
 			out << " end=" << L.n_end << " err=" << L.n_err << " raw=" << hex(L.raw);
 			out << " tmp=" << (status == "200" ? L.tmp_main : 0) << "," << left;
 			out << " fd=" << (status == "200" ? L.fd_main : 0) << "," << fd_left;
+			if (mode.size() == 4 && mode[0] == 'R') out << (status == "200" ? (g_hand.empty() ? std::string(" hand=?") : g_hand) : std::string(" hand=0"));
 			if (rf) out << " R " << (status == "200" ? L.fd_acts : 0) << "," << (status == "200" ? L.tmp_acts : 0) << ";" << fd3 << "," << left3;
 			if (status != "200" && L.n_main2) out << " APP-RAN-ON-REFUSED-REQUEST";
 			if (status == "200" && L.n_main2 != 1) out << " APP-RAN-" << L.n_main2 << "-TIMES";
